@@ -15,7 +15,7 @@
 static int script(std::string const &cmd) {
   std::istringstream is(cmd);
   std::vector<std::string> w; std::string t;
-  while (is >> t) w.push_back(t);
+  while (is >> t) { for (auto &ch : t) if (ch == ',') ch = ' '; w.push_back(t); }   // "1,2,3" is passed as one argument "1 2 3"
   std::vector<unsigned char *> a;
   for (auto &s : w) a.push_back((unsigned char *) s.c_str());
   int rc = run_colvarscript_command((int) a.size(), a.data());
